@@ -1075,6 +1075,10 @@ def run(ck):
     gen_results = generated_registries(ck, rng, fails, symexact, 10 if thorough else 3)
     phase("generated registries")
 
+    # ---------------------------------------------------------------- (H) prefixes / aliases defined after failed lookups
+    late_results = late_definitions(ck, rng, fails, T, 8 if thorough else 2)
+    phase("late definitions")
+
     # ---------------------------------------------------------------- differ inside Coq
     shard = max(20, min(400, -(-len(cases) // (2 * (os.cpu_count() or 4)))))
     bad = ck.coq_mismatches("c08", HEADER, cases, "ok", shard=shard, timeout=1100)
@@ -1082,11 +1086,12 @@ def run(ck):
     ck.extra["model_vs_impl_cases"] = len(cases)
     ck.extra["model_vs_impl_disagreements"] = None if bad is None else len(bad)
     ck.extra["generated_registries"] = gen_results
+    ck.extra["late_definitions"] = late_results
     ck.extra["oracle_failures_by_kind"] = dict(fails.per)
     ck.extra["phase_seconds"] = t_phase
     for key, desc, rp in fails.items:
         ck.violation(key, desc, rp)
-    gen_bad = [g for g in gen_results if g.get("disagreements")]
+    gen_bad = [g for g in gen_results + late_results if g.get("disagreements")]
     if bad:
         # locate the first disagreeing call of (a few of) the disagreeing cases
         loc, lterms = [], []
@@ -1238,6 +1243,117 @@ def generated_registries(ck, rng, fails, symexact, count):
     return out
 
 
+# ------------------------------------------------------------------ definitions that arrive after lookups
+def late_definitions(ck, rng, fails, T, rounds):
+    """One registry A is asked about spellings that have NO reading yet (prefix + unit, alias + plural, …, through
+    parse_unit_name / get_name / get_symbol / parse_units / Quantity / `in`, also case-insensitively), THEN receives a
+    prefix definition and `@alias` lines (no unit definition afterwards), THEN is asked again.  Every answer must be
+    that of a registry B that got the same definitions before any lookup, satisfy the tables oracle of the extended
+    definition text, and agree with the Coq model of that text."""
+    import pint
+    out = []
+    tmp = Path(tempfile.mkdtemp(prefix="c08late"))
+    mult = sorted({d.name for d in T.units.values() if d.mult and IDENT.fullmatch(d.name) and d.name.isascii()})
+    syll = ["myria", "hella", "bronto", "lakh", "crore", "dozen", "vend", "xenn", "wek", "zq"]
+    try:
+        for ri in range(rounds):
+            # --- the late definitions: two prefixes (name + symbol) and three aliases, none of which reads today
+            def unread(x):
+                return x not in T.with_lazy and not T.candidates(x, lazy=True) and not T.candidates(x, casei=True)
+            lines, pref, alias = [], [], []
+            for _ in range(40):
+                if len(pref) < 2:
+                    n = rng.choice(syll) + rng.choice(["", "a", "o", "i"]) + rng.choice(["", "x", "q"])
+                    sy = n[:2] + rng.choice("qxz")
+                    if n not in [a for a, _ in pref] and not any(n.startswith(k) or k.startswith(n) for k in T.pkeys if k) \
+                            and not any(sy.startswith(k) or k.startswith(sy) for k in T.pkeys if k) and unread(n) and unread(sy):
+                        pref.append((n, sy))
+                        lines.append(f"{n}- = {rng.choice(['1e4', '1e-5', '2**12', '12'])} = {sy}-")
+                if len(alias) < 3:
+                    un = rng.choice(mult)
+                    al = rng.choice(["metro", "zq", "qz", "xal", "ulm"]) + rng.choice(["", "o", "ix", "en"]) + str(rng.randint(0, 9)) * rng.randint(0, 1)
+                    if al not in [a for _, a in alias] and IDENT.fullmatch(al) and unread(al) and unread(al + "s") \
+                            and all(unread(k + al) for k in T.pkeys if k):
+                        alias.append((un, al))
+                        lines.append(f"@alias {un} = {al}")
+            rng.shuffle(lines)
+            # --- the spellings that get a reading only through the late definitions
+            some_units = rng.sample([k for k in T.units if IDENT.fullmatch(k) and k.isascii()], 10)
+            derived = [p + u + x for n, sy in pref for p in (n, sy) for u in some_units for x in ("", "s")]
+            derived += [p + al + x for _, al in alias for p in [""] + rng.sample([k for k in T.pkeys if k], 6) + [n for n, _ in pref] for x in ("", "s")]
+            derived = [d for d in dict.fromkeys(derived) if unread(d) and d.lower() != "nan"]
+            folded = [v for d in rng.sample(derived, min(len(derived), 25)) for v in (d.upper(), d.title(), d.swapcase())
+                      if casei_domain(v) and unread(v)]
+
+            def ops_for(sx, ci=False):
+                if ci:
+                    return [("parse", False, sx), ("name", False, sx)]
+                o = [("parse", None, sx), ("name", None, sx), ("symbol", None, sx)]
+                if IDENT.fullmatch(sx) and lex_ok(sx) is not None:
+                    o += [("units", sx, None, None), ("in", sx), ("getattr", sx), ("qto", sx)]
+                return o
+
+            A = Impl()
+            asked = []
+            for sx in rng.sample(derived, int(len(derived) * 0.7)):
+                for op in rng.sample(ops_for(sx), rng.randint(1, 3)):
+                    asked.append((op, A.call(op)))
+            for sx in rng.sample(folded, int(len(folded) * 0.7)):
+                for op in ops_for(sx, True):
+                    asked.append((op, A.call(op)))
+            for l in lines:
+                A.u.define(l)
+            B = Impl()
+            for l in lines:
+                B.u.define(l)
+            # the tables and the model of the extended definition text
+            extra = tmp / f"extra{ri}.txt"
+            extra.write_text("\n".join(lines) + "\n", encoding="utf-8")
+            full = tmp / f"full{ri}.txt"
+            full.write_text(f"@import {REPO / 'pint' / 'default_en.txt'}\n" + "\n".join(lines) + "\n", encoding="utf-8")
+            TX = Tables(full)
+            raw = coq_list([t1_defs.coq_rawdef(d) for d in t1_defs.parse_file(extra)["defs"]])
+            header = (HEADER.split("Definition R0")[0] + f"Definition RX : nreg := nreg_of (default_raw ++ {raw}).\n"
+                      "Definition ok (k : ncase) : bool := c08_ok RX k.\n")
+            rp0 = {"asked_before_the_definitions": [list(op) for op, _ in asked], "then_defined": lines}
+            seq, nbad = [], 0
+            todo = [(sx, False) for sx in derived] + [(sx, True) for sx in folded]
+            rng.shuffle(todo)
+            for sx, ci in todo:
+                if ci and len(B.call(("parse", False, sx))[1]) > 1:
+                    continue                      # set-order dependent winner
+                got = {}
+                for op in ops_for(sx, ci):
+                    a, b = A.call(op), B.call(op)
+                    got[op[0]] = a
+                    if op[0] != "qto":
+                        seq.append((op, a))
+                    ck.case(key=("late", ri, op), nontrivial=True)
+                    if a != b:
+                        nbad += 1
+                        fails.add(f"define-after-lookup:{op[0]}:{sx}",
+                                  f"{op} answers {a} on a registry that was asked about such spellings before `{'; '.join(lines)}` "
+                                  f"was defined, but {b} on a registry that got the same definitions first", {**rp0, "op": list(op), "A": a, "B": b})
+                if not ci:
+                    f2 = Fails()
+                    oracle_string(TX, f2, sx, got["parse"], got["name"], got["symbol"], "extended definitions")
+                    for key, desc, rp in f2.items:
+                        fails.add("late-" + key, "after late definitions: " + desc, {**rp0, **rp})
+            cases = [f"NSeq {coq_cfg()} {coq_list([coq_op(op, o) for op, o in seq])}"]
+            cases += [f"NFresh {coq_cfg()} {coq_list([coq_op(op, o) for op, o in seq[i:i + 24]])}" for i in range(0, len(seq), 24)]
+            bad = ck.coq_mismatches(f"c08late{ri}", header, cases, "ok", shard=max(4, len(cases) // 8 + 1), timeout=600)
+            out.append({"round": ri, "definitions": lines, "spellings": len(derived), "case_folded": len(folded),
+                        "asked_before": len(asked), "answers_differing_from_definitions_first": nbad,
+                        "disagreements": None if bad is None else len(bad),
+                        "first": {"late definitions": lines, "case": bad[0]} if bad else None})
+            ck.count("late definitions: spellings asked before and after a prefix / @alias was defined", len(todo))
+    finally:
+        for f in tmp.glob("*"):
+            f.unlink()
+        tmp.rmdir()
+    return out
+
+
 def replay(ck, path):
     import json
     d = json.load(open(path))
@@ -1247,6 +1363,17 @@ def replay(ck, path):
         print("(generated registry: load the 'definitions' text with pint.UnitRegistry(<file>) to reproduce)")
         return 0
     impl = Impl()
+    if rp.get("then_defined"):
+        for c in rp.get("asked_before_the_definitions", []):
+            impl.call(tuple(c))
+        ref = Impl()
+        for l in rp["then_defined"]:
+            impl.u.define(l)
+            ref.u.define(l)
+        if "op" in rp:
+            print("asked before, then defined:", impl.call(tuple(rp["op"])))
+            print("defined first:", ref.call(tuple(rp["op"])))
+        return 0
     def tup(x):
         return tuple(x)
     if "op" in rp and rp.get("earlier_calls"):
